@@ -1090,6 +1090,16 @@ func (s *vSim) randomRun(o simOpts) {
 		nInit = 3
 		voters = []uint64{1, 2, 3}
 	}
+	if o.scenarios && s.tid%16 == 4 {
+		scen = 4
+		nInit = 5
+		voters = []uint64{1, 2, 3, 4, 5}
+	}
+	if o.scenarios && s.tid%16 == 12 {
+		scen = 5
+		nInit = 3
+		voters = []uint64{1, 2, 3}
+	}
 	for _, id := range voters {
 		s.boot(id, voters)
 	}
@@ -1354,7 +1364,119 @@ func (s *vSim) leaderNode() *vNode {
 	return best
 }
 
+// scenario4 (five voters): a leader replicates a tail to one follower only (acknowledged, not
+// committed), is cut off, the others elect a new leader that overwrites that tail everywhere,
+// the old leader comes back, has its tail overwritten as well and is then elected again. Its
+// progress records of the first reign must be gone: with one fresh acknowledgement it must not
+// be able to commit its new entry (it would be on two of five replicas only, and the other
+// three can commit something else at that index).
+func (s *vSim) scenario4() {
+	s.settle(40, nil, nil, nil, func() bool { return s.leaderNode() != nil && s.leaderNode().applied >= 6 })
+	l := s.leaderNode()
+	if l == nil || len(s.upNodes()) != 5 {
+		return
+	}
+	rest := []*vNode{}
+	for _, n := range s.upNodes() {
+		if n.id != l.id {
+			rest = append(rest, n)
+		}
+	}
+	a, b, c, d := rest[0], rest[1], rest[2], rest[3]
+	only := func(ids ...uint64) map[uint64]bool { // everybody except ids does not tick
+		m := map[uint64]bool{}
+		for _, n := range s.upNodes() {
+			m[n.id] = true
+		}
+		for _, id := range ids {
+			delete(m, id)
+		}
+		return m
+	}
+	// 1: only the link l <-> a works; a acknowledges a tail that is never committed
+	cut1 := func(m pb.Message) bool {
+		return !((m.From == l.id && m.To == a.id) || (m.From == a.id && m.To == l.id))
+	}
+	for i := 0; i < 4; i++ {
+		if l.peer.raft.state != leader {
+			return
+		}
+		s.nextVal++
+		s.propose(l, s.nextVal)
+		s.settle(1, cut1, nil, only(), nil)
+	}
+	// 2: l is cut off; b is elected by c and d (a's log is longer, it refuses) and overwrites a's tail
+	cut2 := func(m pb.Message) bool { return m.From == l.id || m.To == l.id }
+	s.settle(40, cut2, nil, only(b.id), func() bool { return b.peer.raft.state == leader })
+	if b.peer.raft.state != leader {
+		return
+	}
+	s.settle(4, cut2, nil, only(b.id), nil)
+	// 3: l comes back, follows b, its tail is overwritten too
+	s.settle(4, nil, nil, only(b.id), func() bool { return l.peer.raft.state == follower && l.peer.raft.log.lastIndex() == b.peer.raft.log.lastIndex() })
+	// 4: b is cut off, l is elected again
+	cut4 := func(m pb.Message) bool { return m.From == b.id || m.To == b.id }
+	s.settle(40, cut4, nil, only(l.id), func() bool { return l.peer.raft.state == leader })
+	if l.peer.raft.state != leader {
+		return
+	}
+	// 5: only c hears from l: one fresh acknowledgement
+	cut5 := func(m pb.Message) bool {
+		return !((m.From == l.id && m.To == c.id) || (m.From == c.id && m.To == l.id))
+	}
+	s.settle(3, cut5, nil, only(), nil)
+	// 6: l and c are cut off, the other three elect a leader and commit at the same index
+	cut6 := func(m pb.Message) bool {
+		return m.From == l.id || m.To == l.id || m.From == c.id || m.To == c.id
+	}
+	s.settle(40, cut6, nil, only(d.id), func() bool { return d.peer.raft.state == leader })
+	s.settle(4, cut6, nil, only(d.id), nil)
+}
+
+// scenario5 (three voters, two non-voting members): the leader loses both other voters but
+// keeps hearing from the non-voting members. With CheckQuorum it must step down at its next
+// quorum check - non-voting members never count - while the two voters elect a new leader.
+func (s *vSim) scenario5(nextID uint64) uint64 {
+	s.settle(40, nil, nil, nil, func() bool { return s.leaderNode() != nil && s.leaderNode().applied >= 4 })
+	l := s.leaderNode()
+	if l == nil {
+		return nextID
+	}
+	for _, add := range []uint64{nextID, nextID + 1} {
+		s.proposeCC(l, opAddNonVoting, add)
+		s.settle(6, nil, nil, nil, nil)
+		if _, ok := s.firstKind[add]; ok && s.nodes[add] == nil {
+			s.join(add, "N")
+		}
+		s.settle(6, nil, nil, nil, nil)
+	}
+	nv := map[uint64]bool{nextID: true, nextID + 1: true}
+	nextID += 2
+	if l.peer.raft.state != leader {
+		return nextID
+	}
+	cut := func(m pb.Message) bool {
+		// l only reaches (and is reached by) the non-voting members
+		return (m.From == l.id && !nv[m.To]) || (m.To == l.id && !nv[m.From])
+	}
+	for i := 0; i < 6; i++ {
+		if l.peer.raft.state == leader && i%2 == 0 {
+			s.nextVal++
+			s.propose(l, s.nextVal)
+		}
+		s.settle(int(s.et), cut, nil, nil, nil)
+	}
+	return nextID
+}
+
 func (s *vSim) scenario(k int, nextID uint64) uint64 {
+	if k == 4 {
+		s.scenario4()
+		return nextID
+	}
+	if k == 5 {
+		return s.scenario5(nextID)
+	}
 	s.settle(40, nil, nil, nil, func() bool { return s.leaderNode() != nil && s.leaderNode().applied >= 4 })
 	l := s.leaderNode()
 	if l == nil {
